@@ -36,20 +36,41 @@ def pose(kind, t, r=(), shift=0, negq=False):
     if kind == 'R3':
         return PoseR3(tt)
     if kind == 'SE2':
-        return PoseSE2(tt, math.atan2(r[1], r[0]) + 2.0 * math.pi * shift)
+        ang = math.atan2(r[1], r[0]) + 2.0 * math.pi * shift
+        return PoseSE2(tt, np.float64(ang) if form % 2 else ang)          # (the heading is a Python float or a numpy scalar)
     if kind == 'SE3':
         s = -1.0 if negq else 1.0
         den = float(r[4])
-        return PoseSE3(tt, [s * r[0] / den, s * r[1] / den, s * r[2] / den, s * r[3] / den])
+        q = [s * r[0] / den, s * r[1] / den, s * r[2] / den, s * r[3] / den]
+        if form == 3:
+            big = np.zeros(8)
+            big[::2] = q
+            q = big[::2]                      # a non-contiguous view
+        elif form == 5:
+            q = np.array(q[::-1])[::-1]       # a negative-stride view
+        elif form == 1:
+            q = tuple(q)
+        return PoseSE3(tt, q)
     raise ValueError(kind)
 
 
 def info(W):
-    """Information matrix; every fourth one is handed over as an integer ndarray (the lattice matrices are integer valued)."""
+    """Information matrix; every fourth one is handed over as an integer ndarray (the lattice matrices are integer valued); the others vary
+    in storage order, contiguity and writability."""
     _calls[0] += 1
     if _calls[0] % 4 == 0 and all(float(x).is_integer() for row in W for x in row):
         return np.array([[int(x) for x in row] for row in W], dtype=np.int64)
-    return np.array([[float(x) for x in row] for row in W], dtype=np.float64)
+    m = np.array([[float(x) for x in row] for row in W], dtype=np.float64)
+    if _calls[0] % 4 == 1:
+        m = np.asfortranarray(m)                       # column-major storage
+    elif _calls[0] % 4 == 2:
+        n = len(W)
+        big = np.zeros((2 * n, 2 * n))
+        big[::2, ::2] = m
+        m = big[::2, ::2]                              # a non-contiguous view
+    elif _calls[0] % 8 == 3:
+        m.setflags(write=False)                        # a read-only array: the library has no business writing into its inputs
+    return m
 
 
 def f(q):
